@@ -6,15 +6,16 @@ import (
 
 // Plan is the swarm configuration of one run. It is drawn from the `plan` stream and stored in the trace.
 type Plan struct {
-	Profile   string     `json:"profile"`
-	CapInc    int        `json:"capInc"`
-	RelCapInc int        `json:"relCapInc"`
-	Types     []TypeSpec `json:"types"`
-	ResTypes  int        `json:"resTypes"`
-	EntityCap int        `json:"entityCap"`
-	MaxOpen   int        `json:"maxOpen"`
-	FullEvery int        `json:"fullEvery"`
-	Steps     int        `json:"steps"`
+	Profile     string     `json:"profile"`
+	CapInc      int        `json:"capInc"`
+	RelCapInc   int        `json:"relCapInc"`
+	Types       []TypeSpec `json:"types"`
+	ResTypes    int        `json:"resTypes"`
+	EntityCap   int        `json:"entityCap"`
+	MaxOpen     int        `json:"maxOpen"`
+	FullEvery   int        `json:"fullEvery"`
+	LockedYield int        `json:"lockedYield"` // percent of locked mutator turns handed to the iterator instead
+	Steps       int        `json:"steps"`
 
 	Weights map[string]int `json:"weights"`
 
@@ -78,6 +79,7 @@ func GenPlan(profile string, seed uint64, thorough bool) *Plan {
 	}
 	p.MaxOpen = 1 + r.Intn(6)
 	p.FullEvery = []int{1, 1, 2, 4}[r.Intn(4)]
+	p.LockedYield = []int{50, 75, 90}[r.Intn(3)]
 	p.Steps = 40 + r.Intn(110)
 	if thorough && r.Intn(4) == 0 {
 		p.Steps = 150 + r.Intn(450)
@@ -227,6 +229,7 @@ func tuneProfile(p *Plan, r *Rng, thorough bool) {
 		w["lockenum"] = 3
 		w["sweep"] = 2
 		p.IllegalPermille = 0
+		p.LockedYield = []int{0, 30, 60}[r.Intn(3)]
 		p.ListenerChaos = true
 		if r.Intn(3) > 0 {
 			p.Listener = "all"
